@@ -23,7 +23,7 @@ use tarpc::{context, ServerError};
 type Log = Rc<RefCell<Vec<(usize, u64)>>>;
 
 /// A backend that records (backend index, request) and answers immediately.
-#[derive(Clone)]
+#[derive(Clone, Debug)]
 struct Backend {
     idx: usize,
     log: Log,
@@ -92,12 +92,20 @@ fn round_robin(st: &mut St, max_calls: usize) {
     for n in 1..=5usize {
         // every pattern of which of two clones issues each call
         for k in 0..=max_calls {
+          for describe in [false, true] {
+            if describe && k > 8 {
+                continue;
+            }
             for pattern in 0..(1u32 << k.min(10)) {
                 let log: Log = Rc::new(RefCell::new(vec![]));
                 let rr = RoundRobin::new((0..n).map(|i| Backend { idx: i, log: log.clone() }).collect());
                 let rr2 = rr.clone();
                 for c in 0..k {
                     let s = if pattern & (1 << (c % 10)) != 0 { &rr2 } else { &rr };
+                    // looking at a stub (logging it, printing it in an error path) is not a call
+                    if describe && c % 2 == 1 {
+                        let _ = format!("{s:?} {:?}", rr);
+                    }
                     let f = s.call(ctx, c as u64);
                     futures::pin_mut!(f);
                     if drive(f, 10).is_none() {
@@ -105,17 +113,18 @@ fn round_robin(st: &mut St, max_calls: usize) {
                     }
                 }
                 st.evals += 1;
-                st.distinct.insert(h(&("rr", n, k, pattern)));
+                st.distinct.insert(h(&("rr", n, k, pattern, describe)));
                 if k == 7 && pattern == 0b1010101 {
                     st.samples.push(format!("round robin n={n} calls={k} clone pattern {pattern:#b}: backends hit {:?}", log.borrow().iter().map(|x| x.0).collect::<Vec<_>>()));
                 }
                 if let Err(e) = balanced(&log.borrow(), n) {
-                    st.failures.push(("C20-rr-unbalanced".into(), format!("n={n} calls={k} clone pattern {pattern:#b}: {e}")));
+                    st.failures.push(("C20-rr-unbalanced".into(), format!("n={n} calls={k} clone pattern {pattern:#b}{}: {e}", if describe { " (the stub is Debug-formatted before every second call)" } else { "" })));
                 }
                 if log.borrow().len() != k {
                     st.failures.push(("C20-rr-lost-call".into(), format!("n={n}: {k} calls, {} reached a backend", log.borrow().len())));
                 }
             }
+          }
         }
         // task-level concurrency: 3 calls created, first polls in every order, all stay in flight
         let orders: [[usize; 3]; 6] = [[0, 1, 2], [0, 2, 1], [1, 0, 2], [1, 2, 0], [2, 0, 1], [2, 1, 0]];
